@@ -193,7 +193,9 @@ def run(ctx):
             if not tok:
                 continue
             # only passes that emit pieces of the split
-            if not any(o.kind == 'iter_start' and tok[0] in txt(o.val) for o in seg):
+            sp_txt = txt(wr0.expand(sp[0].val))
+            if not any(o.kind == 'iter_start' and o.val is not None and (tok[0] in txt(o.val) or sp_txt in txt(wr0.expand(o.val)))
+                       for o in seg):
                 continue
             n_emit += 1
             buf = txt(sp[0].val.func.value)
